@@ -87,7 +87,7 @@ class C12(C.PipelineCheck):
         for a in range(1, (2 if q else 3) + 1):
             for b in range(1, (2 if q else 3) + 1):
                 yield ('two-names/%d-%d' % (a, b), dict(kind='two', a=a, b=b))
-        for form in ('param', 'ref-param', 'clone-param', 'let-annotated', 'struct-expr', 'literals', 'untyped', 'untyped-binding'):
+        for form in ('param', 'ref-param', 'clone-param', 'let-annotated', 'let-annotated-init', 'struct-expr', 'literals', 'untyped', 'untyped-binding'):
             yield ('payload/%s' % form, dict(kind='payload', form=form))
         yield ('no-events', dict(kind='none'))
         yield ('two-files', dict(kind='two-files'))
@@ -201,7 +201,7 @@ class C12(C.PipelineCheck):
                     e.cover('two-names:distinct')
             elif kind == 'payload':
                 form = p['form']
-                if form in ('param', 'ref-param', 'clone-param', 'let-annotated'):
+                if form in ('param', 'ref-param', 'clone-param', 'let-annotated', 'let-annotated-init'):
                     ctxs = ['-', 'opt', 'vec', 'hmap-v', 'tup2-1', 'hset', 'result1']
                     cx = ctxs[e.choose(len(ctxs))]
                     n = (3, 4, 6)[e.choose(3)]
@@ -223,6 +223,11 @@ class C12(C.PipelineCheck):
                         src = 'pub fn work(app: tauri::AppHandle, v: &%s) { app.emit("evt", &v).unwrap(); }\n' % ty
                     elif form == 'clone-param':
                         src = 'pub fn work(app: tauri::AppHandle, v: %s) { app.emit("evt", v.clone()).unwrap(); }\n' % ty
+                    elif form == 'let-annotated-init':
+                        # the annotation is the type; an initialiser that names a constructor (Vec::new(), T::default()) must not override it
+                        head = {'-': 'HOLE_t', 'opt': 'Option', 'vec': 'Vec', 'hmap-v': 'HashMap', 'tup2-1': 'Default', 'hset': 'HashSet', 'result1': 'Result'}[cx]
+                        init = ['%s::new()' % head, 'Default::default()', '%s::default()' % head, '%s::with_capacity(4)' % head][e.choose(4)]
+                        src = 'pub fn work(app: tauri::AppHandle) { let mut v: %s = %s; app.emit("evt", &v).unwrap(); }\n' % (ty, init)
                     else:
                         src = 'pub fn work(app: tauri::AppHandle) { let v: %s = make(); app.emit("evt", v).unwrap(); }\n' % ty
                     expected = [(Str('evt'), S.norm(S.denote(sk, holes)))]
